@@ -233,6 +233,81 @@ func runC36(c *Ctx) {
 	r2 := c.Rule("R2", "sibling goroutines do not share a written struct field without a common lock", 2)
 	siblingRule(c, li, r2)
 
+	r5 := c.Rule("R5", "what a mutex-guarded container holds is guarded too: the fields of cache.l1CacheEntry (the values of L1Cache.lookup) are read and written only while L1Cache.locker is held - copying a field into a local inside the critical section is the accepted way to use it afterwards", 2)
+	{
+		locker := w.Field("cache", "L1Cache", "locker")
+		est, _ := w.Object("cache", "l1CacheEntry").Type().Underlying().(*types.Struct)
+		if est == nil {
+			panic(undecided{"cache.l1CacheEntry is not a struct"})
+		}
+		entryFld := map[*types.Var]bool{}
+		for i := 0; i < est.NumFields(); i++ {
+			entryFld[est.Field(i)] = true
+		}
+		nAcc := 0
+		var offs []string
+		var pos token.Pos
+		for _, f := range w.declaredFuncs("cache") {
+			if isTestHelperFile(w, f) {
+				continue
+			}
+			root := rootOf(f)
+			nm := ""
+			if root.Decl != nil {
+				nm = root.Decl.Name.Name
+			}
+			if strings.HasPrefix(nm, "New") || strings.HasPrefix(nm, "new") {
+				continue
+			}
+			for _, fn := range append([]*Func{f}, w.allLits(f)...) {
+				g := w.G(fn)
+				info := fn.Pkg.TypesInfo
+				for _, n := range g.Nodes {
+					if n.Ast == nil {
+						continue
+					}
+					touched := false
+					ast.Inspect(n.Ast, func(x ast.Node) bool {
+						switch y := x.(type) {
+						case *ast.FuncLit:
+							return false
+						case *ast.SelectorExpr:
+							if fv := fieldOfSelector(info, y); fv != nil && entryFld[fv] && !rootedAtLocalValue(info, y) {
+								touched = true
+							}
+						case *ast.KeyValueExpr:
+							return true
+						}
+						return true
+					})
+					// composite literals building a fresh entry are not accesses of a shared one
+					if _, isAssign := n.Ast.(*ast.AssignStmt); touched && isAssign {
+						if as := n.Ast.(*ast.AssignStmt); len(as.Rhs) == 1 {
+							if u, ok := ast.Unparen(as.Rhs[0]).(*ast.UnaryExpr); ok {
+								if _, isLit := ast.Unparen(u.X).(*ast.CompositeLit); isLit {
+									touched = false
+								}
+							}
+						}
+					}
+					if !touched {
+						continue
+					}
+					nAcc++
+					if li.heldAtNode(fn, n, 3)[locker] < 1 {
+						offs = append(offs, fmt.Sprintf("%s at %s", shortKey(root.Key), w.PosStr(n.Ast.Pos())))
+						if pos == token.NoPos {
+							pos = n.Ast.Pos()
+						}
+					}
+				}
+			}
+		}
+		c.Check(nAcc >= 5, r5, "l1CacheEntry field accesses inventoried", token.NoPos, fmt.Sprintf("%d accesses", nAcc), fmt.Sprintf("only %d accesses", nAcc), nil)
+		c.Check(len(offs) == 0, r5, "cache.l1CacheEntry fields are accessed under L1Cache.locker", pos, "all accesses inside the critical section",
+			fmt.Sprintf("an entry's field is accessed without L1Cache.locker held (%s): SetNodeToMRU (refresh in place), DeleteNodes and the MRU eviction write that field under the lock, so a cache hit races with a concurrent refresh, delete or eviction of the same node", strings.Join(offs, "; ")), nil)
+	}
+
 	r4 := c.Rule("R4", "mutex-sibling containers: in a struct that carries its own sync.Mutex / sync.RWMutex, every access to a sibling field of map type outside the constructors happens with that mutex held (exclusively for writes, at least shared for reads, len() included)", 2)
 	mutexSiblingRule(c, li, r4)
 }
